@@ -175,6 +175,25 @@ def enc_qe(qe, wave_nm):
     return [1] + C.enc_list(qe_vector(qe, wave_nm), C.enc_q)
 
 
+UNIT_CODE = {'m': 0, 'um': 1, 'nm': 2, 'angstrom': 3}
+
+
+def enc_qe_any(qe):
+    """the efficiency itself (a Spectrum as its table in its own unit): the model does the sampling"""
+    if qe['kind'] == 'scalar':
+        return [0] + C.enc_q(F(qe['v']))
+    if qe['kind'] == 'vec':
+        return [1] + C.enc_list([F(x) for x in qe['v']], C.enc_q)
+    k = {'nm': F(1), 'um': F(1, 1000), 'angstrom': F(10), 'm': F(1, 10 ** 9)}[qe['unit']]
+    return ([2, UNIT_CODE[qe['unit']]] + C.enc_list([F(g) * k for g in qe['grid']], C.enc_q)
+            + C.enc_list([F(v) for v in qe['vals']], C.enc_q))
+
+
+def enc_wave_any(c):
+    k = {'nm': F(1), 'um': F(1, 1000), 'angstrom': F(10), 'm': F(1, 10 ** 9)}[c['unit']]
+    return C.enc_list([F(w) * k for w in c['wave']], C.enc_q) + [UNIT_CODE[c['unit']]]
+
+
 def has_spectrum(c):
     return any(c.get(k, {}).get('kind') == 'spectrum' for k in ('qe', 'qr', 'qg', 'qb'))
 
@@ -293,12 +312,12 @@ def gen_collect(rng):
     case = {'op': 'collect', 'img': img, 'wave': wave, 'unit': rng.choice(UNITS), 'qe': rnd_qe(rng, wave),
             'img_dtype': rng.choice(IMG_DTYPES), 'wave_form': rng.choice(['ndarray', 'ndarray', 'list', 'tuple'])}
     u = rng.random()
-    if u < 0.05:      # wavelength count differs from the number of slices (broadcast or error: model decides)
+    if u < 0.08:      # wavelength count differs from the number of slices (broadcast or error: model decides)
         case['wave'] = rnd_wave(rng, rng.choice([x for x in (1, 2, 3, 4, 5) if x != k]))
         case['qe'] = rnd_qe(rng, case['wave'], ('scalar', 'vec'))
-    elif u < 0.09 and case['qe']['kind'] == 'vec':   # efficiency vector of the wrong length
+    elif u < 0.16 and case['qe']['kind'] == 'vec':   # efficiency vector of the wrong length
         case['qe']['v'] = case['qe']['v'] + ['1/2'] if rng.random() < 0.5 else case['qe']['v'][:-1] or ['1/4', '1/2']
-    elif u < 0.30:
+    elif 0.16 <= u < 0.36:
         faint(rng, case, ['qe'])
     case['img_wrap'] = rng.choice(WRAPS)
     case['wave_wrap'] = rng.choice(WRAPS)
@@ -335,7 +354,14 @@ def gen_bayer(rng, pk=None, os_=None, pat=None):
         case['pattern'] = ''.join(s)
     elif u < 0.06:        # not a perfect square
         case['pattern'] = case['pattern'] + rng.choice('RGB') * rng.choice([1, 2])
-    elif u < 0.22:
+    elif u < 0.10:        # an efficiency vector of the wrong length (looked at before the pattern string)
+        vk = [k for k in ('qr', 'qg', 'qb') if case[k]['kind'] == 'vec']
+        if vk:
+            k = rng.choice(vk)
+            case[k] = dict(case[k], v=case[k]['v'] + ['1/2'])
+            if rng.random() < 0.3:
+                case['pattern'] = case['pattern'][:-1] + 'X'
+    elif u < 0.26:
         faint(rng, case, ['qr', 'qg', 'qb'])
     case['img_wrap'] = rng.choice(WRAPS)
     case['flatten_form'] = rng.choice(['bool', 'bool', 'np', 'int'])
@@ -770,11 +796,17 @@ def enc_gain(g):
 def encode(c):
     op = c['op']
     try:
+        if op == 'collect' and has_spectrum(c):      # the model samples the Spectrum itself (Model/DetectorQE.v)
+            return [8] + enc_img(c['img']) + enc_wave_any(c) + enc_qe_any(c['qe'])
         if op == 'collect':
             return [1] + enc_img(c['img']) + [len(c['wave'])] + enc_qe(c['qe'], c['wave'])
         if op == 'bayer':
             if c['os'] < 1 or len(c['pattern']) < 1:
                 return None      # ZeroDivisionError in the code: outside the modelled domain
+            if has_spectrum(c):
+                return ([9] + enc_img(c['img']) + enc_wave_any(c) + enc_qe_any(c['qr']) + enc_qe_any(c['qg'])
+                        + enc_qe_any(c['qb']) + C.enc_list(pattern_codes(c['pattern']), lambda x: [x])
+                        + [c['os'], 1 if c['flatten'] else 0])
             return ([2] + enc_img(c['img']) + [len(c['wave'])] + enc_qe(c['qr'], c['wave']) + enc_qe(c['qg'], c['wave'])
                     + enc_qe(c['qb'], c['wave']) + C.enc_list(pattern_codes(c['pattern']), lambda x: [x])
                     + [c['os'], 1 if c['flatten'] else 0])
@@ -1040,20 +1072,50 @@ def cmp_qarr(impl, model, exact, what):
     return None
 
 
+def refusal(c):
+    """(exception, reason) if the call is one of the refusals stated in Properties/C16.v (C16_collect_vector_length_refused,
+    C16_collect_slice_count_refused, C16_bayer_refusal_order, C16_format_bayer_rejects, C16_bayer_frame_not_tiled_refused),
+    in the order in which the code looks at its arguments; else None"""
+    op = c['op']
+    if op not in ('collect', 'bayer'):
+        return None
+    nk, nw = len(cube_of(c)), len(c['wave'])
+    for k in (['qe'] if op == 'collect' else ['qr', 'qg', 'qb']):
+        if c[k]['kind'] == 'vec' and len(c[k]['v']) != nw:
+            return ('AssertionError', 'efficiency vector whose length is not the number of wavelengths')
+    if op == 'bayer':
+        s = c['pattern'].upper()
+        k = math.isqrt(len(s))
+        if len(s) < 1 or c['os'] < 1:
+            return None
+        if any(ch not in 'RGB' for ch in s) or k * k != len(s):
+            return ('ValueError', 'pattern string')
+    if nk != nw and nk != 1 and nw != 1:
+        return ('ValueError', 'cube whose number of slices is not the number of wavelengths')
+    if op == 'bayer' and nk == nw:
+        cube = cube_of(c)
+        R, Cc, o = len(cube[0]), len(cube[0][0]), c['os']
+        mr, mc = k * ((R // o) // k) * o, k * ((Cc // o) // k) * o
+        if (R != mr and R != 1 and mr != 1) or (Cc != mc and Cc != 1 and mc != 1):
+            return ('ValueError', 'frame that does not consist of whole tiles of pattern x oversample')
+    return None
+
+
 def pinned(c):
     """what the property (and the documented error cases) pin for this input:
     'value' = inside the property's domain, 'error' = a documented refusal (bad pattern string, gain of rank > 3,
     gain pixel axes that cannot be matched with the frame), None = an accident of numpy broadcasting that a harmless
     rewrite may change (wavelength count != number of slices, frames that are not multiples of pattern*oversample,
-    gain axes of length 1): modelled, generated, but not compared"""
+    gain axes of length 1): modelled, generated, but not compared.  The refusals of the collection entry points that
+    Properties/C16.v states (see refusal) are pinned as errors, with their exception."""
     op = c['op']
+    if refusal(c):
+        return 'error'
     if op == 'collect':
         return 'value' if collect_domain(c, ['qe']) else None
     if op == 'bayer':
         s = c['pattern'].upper()
         k = math.isqrt(len(s))
-        if len(s) >= 1 and (any(ch not in 'RGB' for ch in s) or k * k != len(s)):
-            return 'error'
         cube = cube_of(c)
         R, Cc = len(cube[0]), len(cube[0][0])
         if len(s) < 1 or c['os'] < 1 or not collect_domain(c, ['qr', 'qg', 'qb']) or R % (k * c['os']) or Cc % (k * c['os']):
@@ -1214,9 +1276,9 @@ def oracle(c, impl):
         return None
     exact = not has_spectrum(c)
     set_tol_floor(c)
-    if op in ('bayer', 'adc') and pinned(c) == 'error':
-        what = 'pattern string' if op == 'bayer' else 'gain'
-        return None if impl.get('err') == 'ValueError' else f'{op}: an invalid {what} was not refused with ValueError: {str(impl)[:200]}'
+    if op in ('collect', 'bayer', 'adc') and pinned(c) == 'error':
+        kind, what = refusal(c) or ('ValueError', 'gain')
+        return None if impl.get('err') == kind else f'{op}: a {what} was not refused with {kind}: {str(impl)[:200]}'
     if op == 'collect':
         if not collect_domain(c, ['qe']):
             return None
